@@ -1,7 +1,7 @@
 (** Pinned statements of the C15 property theorems: compiled on every check, so a theorem cannot be
     weakened silently. *)
 From Coq Require Import Sorting.Permutation.
-From V Require Import Base.Util Gql.Ast C15.Model C15.Spec C15.Corr C15.Properties.
+From V Require Import Base.Util Gql.Ast C15.Model C15.Spec C15.Proofs C15.Proofs2 C15.CheckBridge C15.Corr C15.Properties.
 
 Check (C15_routes_agree : forall st meta M D,
   model_ok M = true ->
@@ -19,14 +19,14 @@ Check (C15_sdl_route_respects_doc_equiv : forall D D0 n,
   option_map norm_typedef (get_type (ast_to_type_system D) n) = option_map norm_typedef (get_type (ast_to_type_system D0) n)
   /\ option_map norm_directive (get_directive (ast_to_type_system D) n) = option_map norm_directive (get_directive (ast_to_type_system D0) n)).
 Print Assumptions C15_sdl_route_respects_doc_equiv.
-Check (C15_shadow_root_refuted :
-  exists M D Sj,
-    dirs_ok M = true /\ implicit_roots_ok M = true /\ roots_ok M = true /\ desc_ok M = true
-    /\ doc_equiv D (sdl_doc M) /\ parsed_positions D
-    /\ json_route (introspect Full false M) = Ok Sj
-    /\ root_type Sj Mutation = Some (s "Mutation")
+Check (C15_shadow_root_agrees :
+  exists D Sj,
+    doc_equiv D (sdl_doc C15.Proofs.shadow_model) /\ parsed_positions D
+    /\ json_route (introspect Full false C15.Proofs.shadow_model) = Ok Sj
+    /\ get_type Sj (s "Mutation") <> None
+    /\ root_type Sj Mutation = None
     /\ root_type (ast_to_type_system D) Mutation = None).
-Print Assumptions C15_shadow_root_refuted.
+Print Assumptions C15_shadow_root_agrees.
 Check (C15_unreferenced_builtin_refuted :
   exists M D Sj,
     model_ok M = true /\ doc_equiv D (sdl_doc M) /\ parsed_positions D
@@ -75,3 +75,24 @@ Check (C15_routes_agree_any_order : forall st meta M D types,
   parsed_positions D ->
   exists Sj, json_route (introspect_of st types M) = Ok Sj /\ schema_equiv_on (vis_of M) Sj (ast_to_type_system D)).
 Print Assumptions C15_routes_agree_any_order.
+Check (C15_checker_model_reads_schema : forall S,
+  (forall n, option_map conv_td (V.C03.Model.get_type S n) = lookup n (sc_types (ast_to_type_system S)))
+  /\ (forall n, option_map conv_dd (V.C03.Model.get_directive S n) = lookup n (sc_dirs (ast_to_type_system S)))
+  /\ map convert_type_definition (V.C03.Model.iter_types S) = sc_types (ast_to_type_system S)
+  /\ roots_rel (V.C03.Model.root_types S) (sc_roots (ast_to_type_system S))).
+Print Assumptions C15_checker_model_reads_schema.
+Check (C15_root_decision_agrees : forall st meta M D,
+  model_ok M = true -> doc_equiv D (sdl_doc M) -> parsed_positions D ->
+  exists Sj, json_route (introspect st meta M) = Ok Sj /\
+    forall fuel fm op,
+      (root_type Sj (op_type op) = None -> exists e, V.C03.Model.check_operation fuel D fm op = [e])
+      /\ (forall n, root_type Sj (op_type op) = Some n ->
+            exists root, V.C03.Model.get_type D n = Some root
+              /\ option_map norm_typedef (get_type Sj n) = Some (norm_typedef (nval (conv_td root)))
+              /\ V.C03.Model.check_operation fuel D fm op =
+                   V.C03.Model.check_directives D (op_vars op) (V.C03.Model.op_location (op_type op)) (op_dirs op)
+                   ++ match op_vars op with Some vs => V.C03.Model.check_variables_definition D vs | None => [] end
+                   ++ (if optype_eqb (op_type op) Subscription && Nat.ltb 1 (V.C03.Model.count_fields fuel fm [] (op_sel op))
+                       then [V.C03.Model.err0 V.C03.Model.SubscriptionMustHaveExactlyOneRootField (op_pos op)] else [])
+                   ++ V.C03.Model.check_selection_set fuel D fm (op_vars op) [] root (op_sel op))).
+Print Assumptions C15_root_decision_agrees.
